@@ -327,8 +327,16 @@ func (w *lex_{{.V}}) Scan() interface{}          { return w.l.Scan() }
 func (w *lex_{{.V}}) Reset()                     { w.l.Reset() }
 func (w *lex_{{.V}}) SetContext(c interface{})   { w.l.Context = c }
 func (glue_{{.V}}) NewLexer(src []byte) harness.Lexer { return &lex_{{.V}}{lexer_{{.V}}.NewLexer(src)} }
+func (glue_{{.V}}) NewLexerFile(path string) (harness.Lexer, error) {
+	l, err := lexer_{{.V}}.NewLexerFile(path)
+	if err != nil {
+		return nil, err
+	}
+	return &lex_{{.V}}{l}, nil
+}
 {{else}}
 func (glue_{{.V}}) NewLexer(src []byte) harness.Lexer { return nil }
+func (glue_{{.V}}) NewLexerFile(path string) (harness.Lexer, error) { return nil, nil }
 {{end}}
 
 {{if .HasParser}}
